@@ -282,8 +282,117 @@ def simple_funcs(draw: Any) -> str:
     return ast.unparse(mod)
 
 
+# ---------------------------------------------------------------------------
+# (d) concrete syntax that ast.unparse never emits: string prefixes and escapes in f-strings
+
+@st.composite
+def fstring_texts(draw: Any) -> str:
+    prefix = draw(st.sampled_from(["f", "F", "rf", "fr", "Rf", "fR", "RF", "f", "rf"]))
+    quote = draw(st.sampled_from(["'", '"']))
+    other = '"' if quote == "'" else "'"
+    lits = ["\\n", "\\t", "\\b", "\\\\", "\\x41", "\\d+", "\\s", "\\101", "\\N{DASH}" if "r" not in prefix.lower() else "\\w",
+            " a ", "x=", other, "#", " ", "é", "%s"]
+    fields = ["{a}", "{b!r}", "{a:>4}", "{a + b}", "{b!s:5}", "{ a }", "{len(a)}"]
+    parts = []
+    for _ in range(draw(st.integers(1, 5))):
+        parts.append(draw(st.sampled_from(fields)) if draw(st.integers(0, 2)) == 0 else draw(st.sampled_from(lits)))
+    text = prefix + quote + "".join(parts) + quote
+    target = draw(st.sampled_from(["v = {}", "v = g({}, 1)", "def fn(a, b):\n    return {}", "v = [{} for a in c]"]))
+    return target.format(text) + "\n"
+
+
+# (e) top-level comparison constraints: shape (chains, parenthesised comparisons on either side, negation) and
+#     operand kinds (ints, strings, sets, floats incl. NaN, sequences, truth values); the texts are evaluable,
+#     so that besides the AST comparison the VERDICTS on every word of the grammar are compared with CPython's
+
+FAMILIES = {
+    "int": ["int(SYM_A)", "int(SYM_B)", "5", "int(SYM_A) + 1", "len(str(SYM_B))", "2", "(int(SYM_B) < 5)", "(int(SYM_A) == 2)", "True"],
+    "set": ["{int(SYM_A), 9}", "{int(SYM_B), 9}", "{2}", "set()", "frozenset({2, 5})", "{int(SYM_A), int(SYM_B)}", "{2, 9}"],
+    "str": ["str(SYM_A)", "'2'", "str(SYM_A) + str(SYM_B)", "str(SYM_B)", "'15'", "''"],
+    "float": ["float('nan')", "float(int(SYM_A))", "0.5", "int(SYM_B) / 2", "2.0", "int(SYM_A)"],
+    "seq": ["[int(SYM_A)]", "[2, 5]", "[int(SYM_A), int(SYM_B)]", "[int(SYM_B)]", "[]", "(int(SYM_A), int(SYM_B))"],
+}
+FAMILIES["mixed"] = [x for v in FAMILIES.values() for x in v] + ["None"]
+CMP_TEXT = ["==", "!=", "<", "<=", ">", ">=", "in", "not in"]
+CMP_GRAMMAR = "<start> ::= <a> <b>\n<a> ::= '1' | '2' | '7'\n<b> ::= '2' | '5' | '9'\n"
+CMP_WORDS = [x + y for x in "127" for y in "259"]
+
+
+@st.composite
+def cmp_constraints(draw: Any) -> str:
+    pool = FAMILIES[draw(st.sampled_from(["int", "int", "set", "str", "float", "seq", "mixed"]))]
+    o = lambda: draw(st.sampled_from(pool))  # noqa: E731
+    c = lambda: draw(st.sampled_from(CMP_TEXT))  # noqa: E731
+    shape = draw(st.sampled_from(["plain", "plain", "chain", "right_paren", "left_paren", "both_paren", "not_plain",
+                                  "not_right_paren", "chain3", "paren_chain"]))
+    if shape == "plain":
+        return f"{o()} {c()} {o()}"
+    if shape == "chain":
+        return f"{o()} {c()} {o()} {c()} {o()}"
+    if shape == "chain3":
+        return f"{o()} {c()} {o()} {c()} {o()} {c()} {o()}"
+    if shape == "right_paren":
+        return f"{o()} {c()} ({o()} {c()} {o()})"
+    if shape == "left_paren":
+        return f"({o()} {c()} {o()}) {c()} {o()}"
+    if shape == "both_paren":
+        return f"({o()} {c()} {o()}) {c()} ({o()} {c()} {o()})"
+    if shape == "not_plain":
+        return f"not {o()} {c()} {o()}"
+    if shape == "not_right_paren":
+        return f"not {o()} {c()} ({o()} {c()} {o()})"
+    return f"({o()} {c()} {o()} {c()} {o()})"
+
+
+def cmp_verdicts(e_text: str, ctx: Any = None) -> list[str]:
+    """Fandango's verdict for `where e_text` on every word of CMP_GRAMMAR vs. CPython evaluating the same text with
+    the symbols bound to the same subtrees (an evaluation that raises counts as not satisfied on both sides)."""
+    from fandango import Fandango
+
+    body = re.sub(r"\bSYM_A\b", "<a>", re.sub(r"\bSYM_B\b", "<b>", e_text))
+    try:
+        f = Fandango(CMP_GRAMMAR + f"where {body}\n", use_stdlib=False, use_cache=False)
+    except Exception:
+        return []
+    code = compile(ast.parse(e_text, mode="eval"), "<constraint>", "eval")
+    msgs = []
+    seen = set()
+    for w in CMP_WORDS:
+        t = f.grammar.parse(w)
+        if t is None:
+            continue
+        a, b = t.children[0], t.children[1]
+        try:
+            want = bool(eval(code, {"SYM_A": a, "SYM_B": b}))
+        except Exception:
+            want = False
+        try:
+            got = all(c.check(t) for c in f.constraints)
+        except Exception as e:
+            msgs.append(f"`where {body}` on {w!r}: check() raised {type(e).__name__}: {e}")
+            continue
+        seen.add(want)
+        if got != want:
+            msgs.append(f"`where {body}` on {w!r} (<a>={w[0]}, <b>={w[1]}): Fandango's verdict is {got}, CPython evaluates the same text to {want}")
+    if ctx is not None:
+        ctx.count("verdict_constraints")
+        ctx.count("verdict_constraints_both_outcomes" if len(seen) == 2 else "verdict_constraints_one_outcome")
+    return msgs[:3]
+
+
 def check_case(case: dict[str, Any], ctx: Any = None) -> list[str]:
     kind = case["kind"]
+    if kind == "fstring":
+        return check_module(case["src"], ctx, "fstring_text")
+    if kind == "cmp":
+        outcome, detail = compare_expr(case["src"], "where")
+        if ctx is not None:
+            ctx.count(f"expr[cmp]:{outcome}")
+            ctx.count("programs")
+            ctx.case({"e": case["src"], "c": "cmp"}, outcome == "equal" and case["src"].count("(") >= 2, ("origin=comparison_constraint",),
+                     sample={"origin": "comparison constraint", "program": case["src"][:300], "outcome": outcome, "detail": detail[:200]})
+        msgs = [detail[:1500]] if outcome == "violation" else []
+        return msgs + cmp_verdicts(case["src"], ctx)
     if kind == "module":
         return check_module(case["src"], ctx, case.get("origin", "generated"))
     if kind == "func":
@@ -337,6 +446,22 @@ def run_shard(ctx: Any) -> None:
         if msgs:
             ctx.fail(case, msgs)
 
+    @given(fstring_texts())
+    def test_fstr(src: str) -> None:
+        case = {"kind": "fstring", "src": src}
+        msgs = check_case(case, ctx)
+        if msgs and classify(case, msgs) is None:
+            ctx.fail(case, msgs)
+
+    @given(cmp_constraints())
+    def test_cmp(src: str) -> None:
+        case = {"kind": "cmp", "src": src}
+        msgs = check_case(case, ctx)
+        if msgs:
+            ctx.fail(case, msgs)
+
+    ctx.run_test(test_fstr, 60 if ctx.tier == "quick" else 2000, salt="fstr")
+    ctx.run_test(test_cmp, 80 if ctx.tier == "quick" else 2000, salt="cmp")
     ctx.run_test(test_fn, n_fn, salt="fn")
     ctx.run_test(test_mod, n_mod, salt="mod")
     ctx.run_test(test_expr, n_expr, salt="expr")
